@@ -420,9 +420,21 @@ func (x *Exec) calleeModKeys(s *State, in ssa.CallInstruction) []string {
 	} else {
 		if p, ok := c.Value.(*ssa.Parameter); ok {
 			key = funcKey(x.fn) + "#" + p.Name()
+		} else if fvv, ok := c.Value.(*ssa.FreeVar); ok {
+			key = funcKey(x.fn) + "#" + fvv.Name()
 		} else if u, ok := c.Value.(*ssa.UnOp); ok {
 			if g, ok := u.X.(*ssa.Global); ok {
 				key = g.Pkg.Pkg.Path() + "." + g.Name()
+			} else if fv, ok := u.X.(*ssa.FreeVar); ok {
+				key = funcKey(x.fn) + "#" + fv.Name()
+			} else if fa, ok := u.X.(*ssa.FieldAddr); ok {
+				// a function-typed struct field: contract under <pkg>.<Struct>.<field>
+				n, ok := fa.X.Type().Underlying().(*types.Pointer).Elem().(*types.Named)
+				if !ok || n.Obj().Pkg() == nil {
+					return []string{"*"}
+				}
+				st := n.Underlying().(*types.Struct)
+				key = n.Obj().Pkg().Path() + "." + n.Obj().Name() + "." + st.Field(fa.Field).Name()
 			} else {
 				return []string{"*"}
 			}
